@@ -311,7 +311,9 @@ def rewrite_cases(ctx):
     cases = []
     seqs = [('flat', [[3, 2], [4, 4]]), ('flat', [[4, 4], [3, 2]]), ('flat', [[3, 2], [3, 2]]),
             ('flat', [[5], [2], [6]]), ('npy', [[5], [7]]), ('npy', [[5], [5]]), ('npy', [[6], [2]]),
-            ('cbin', [[4], [6]]), ('cbin', [[4], [4]])]
+            ('cbin', [[4], [6]]), ('cbin', [[4], [4]]),
+            # recordings in more than ten files (names that sort differently as text and as numbers)
+            ('flat', [[1] * 12]), ('flat', [[2, 1] * 7, [1] * 11])]
     for backend, seq in seqs:
         for dts in (('int16', 'int16'), ('int16', 'float32'), ('float64', 'uint8')):
             for off in ((0, 5) if backend == 'flat' else (0,)):
